@@ -294,10 +294,254 @@ def run_case(case, t: Tally, verbose=False):
             raise HarnessError("World did not attempt an upstream connection for an allowed destination: %r %r" % (case, obs))
 
 
+# ---------------------------------------------------------------------------
+# histories: runtime reconfiguration interleaved with upstream connects
+#
+# A real Master (Core + Proxyserver + NextLayer) runs on the virtual loop with `is_running` set.  The only
+# seams replaced are the two functions that bind sockets (`asyncio.start_server`, `mitmproxy_rs.udp.start_udp_server`):
+# they hand out fake listeners and complete only when the environment says so ("settle"), so an upstream connect
+# can fall between an option change and the end of the asynchronous server restart.  Everything else - options,
+# `Proxyserver.configure`, `Servers.update` (lock, stop-before-start, signals), `ServerInstance.start/stop`,
+# `listen_addrs`, `server_connect` - is the real code.  The reference is evaluated on the listeners that are
+# *open at the moment of the connect* (the environment's own registry, not mitmproxy's view of it).
+
+HIST_PORT0 = 8080
+HIST_MODE_SETS = {  # name -> option update (applied through the real options object)
+    "m0": {"mode": ["regular"]},  # listens on listen_port (8080)
+    "m1": {"mode": ["regular@8081"]},
+    "m2": {"mode": ["regular@127.0.0.1:8082"]},
+    "m3": {"mode": ["socks5@8081", "dns@8053"]},
+    "m4": {"mode": ["reverse:udp://192.0.2.9:9@8081"]},
+    "off": {"server": False},
+    "on": {"server": True},
+}
+HIST_PROBE_HOSTS = [("localhost", "localhost"), ("127.0.0.1", "127.0.0.1"), ("::1", "::1"), ("listen-ip", "192.0.2.5"), ("other-host", "192.0.2.99")]
+HIST_PROBE_PORTS = [8080, 8081, 8082, 8053, 443]
+
+
+class HistListener:
+    """stands in for asyncio.Server and mitmproxy_rs.udp.UdpServer"""
+
+    def __init__(self, env, owner, host, port, transport):
+        self.env, self.owner, self.transport = env, owner, transport
+        if host in ("", None):
+            addrs = [("0.0.0.0", port), ("::", port, 0, 0)] if transport == "tcp" else [("0.0.0.0", port)]
+        elif host == "localhost":
+            addrs = [("127.0.0.1", port), ("::1", port, 0, 0)]
+        elif ":" in host:
+            addrs = [(host, port, 0, 0)]
+        else:
+            addrs = [(host, port)]
+        self.sockets = [FakeSock(a) for a in addrs]
+        self.is_open = False
+
+    def getsockname(self):
+        return self.sockets[0].addr
+
+    def close(self):
+        self.is_open = False
+        if self in self.env.open:
+            self.env.open.remove(self)
+
+    async def wait_closed(self):
+        return
+
+    def is_serving(self):
+        return self.is_open
+
+
+class HistEnv:
+    def __init__(self):
+        import asyncio
+
+        import mitmproxy.ctx as mctx
+        import mitmproxy_rs
+        from mitmproxy import master as mmaster
+        from mitmproxy import options as moptions
+        from mitmproxy.addons import core as core_addon
+        from mitmproxy.addons import next_layer as next_layer_addon
+        from vmc.vloop import VLoop
+
+        self.loop = VLoop(eager=True)
+        self.open: list[HistListener] = []
+        self.pending: list = []  # (listener, future)
+        self._asyncio, self._rs = asyncio, mitmproxy_rs
+        self._saved = (asyncio.start_server, mitmproxy_rs.udp.start_udp_server)
+        env = self
+
+        async def start(lst):
+            for o in env.open:
+                if o.transport == lst.transport and any(a.addr[:2] == b.addr[:2] for a in o.sockets for b in lst.sockets):
+                    raise OSError(98, "Address already in use")
+            fut = env.loop.create_future()
+            env.pending.append((lst, fut))
+            await fut
+            lst.is_open = True
+            env.open.append(lst)
+            return lst
+
+        async def fake_start_server(cb, host=None, port=None, **kw):
+            return await start(HistListener(env, cb.__self__, host, port, "tcp"))
+
+        async def fake_start_udp_server(host, port, cb, *a, **kw):
+            return await start(HistListener(env, cb.__self__, host, port, "udp"))
+
+        asyncio.start_server = fake_start_server
+        mitmproxy_rs.udp.start_udp_server = fake_start_udp_server
+        try:
+            self.master = mmaster.Master(moptions.Options(), event_loop=self.loop)
+            self.master._legacy_log_events.uninstall()
+            self.ps = Proxyserver()
+            self.loop.call_in_loop(lambda: self.master.addons.add(core_addon.Core(), self.ps, next_layer_addon.NextLayer()))
+            mctx.master, mctx.options = self.master, self.master.options
+            self.do(lambda: self.master.options.update(listen_host="", listen_port=HIST_PORT0, mode=["regular"]))
+            self.do(lambda: self.loop.create_task(self.ps.setup_servers()))
+            self.settle()
+            self.ps.running()
+        except BaseException:
+            self.dispose()
+            raise
+
+    def do(self, fn):
+        import mitmproxy.ctx as mctx
+
+        mctx.master, mctx.options = self.master, self.master.options
+        r = self.loop.call_in_loop(fn)
+        self.loop.quiesce()
+        return r
+
+    def settle(self):
+        """let every pending bind complete (and whatever restart was queued behind it)"""
+        n = 0
+        while self.pending:
+            lst, fut = self.pending.pop(0)
+            self.do(lambda: (not fut.done()) and fut.set_result(None))
+            n += 1
+        return n
+
+    def listeners(self):
+        """[[mode spec, [addr, ...]]] of what is open right now, per owning server instance"""
+        out = []
+        for lst in self.open:
+            out.append([lst.owner.mode.full_spec, [list(s.addr) for s in lst.sockets], lst.transport])
+        return out
+
+    def dispose(self):
+        self._asyncio.start_server, self._rs.udp.start_udp_server = self._saved
+        try:
+            self.loop.shutdown()
+        except Exception:
+            pass
+
+
+def hist_reference(listeners, host, port, transport):
+    """same predicate as `reference`, on the currently open listeners; a fake listener speaks exactly one transport"""
+    req = req_mt = None
+    for spec, addrs, lt in listeners:
+        if lt != transport:
+            continue
+        for a in addrs:
+            if a[1] != port:
+                continue
+            why = denotes(host, a[0])
+            if why and not why.startswith("unjudged:") and req is None:
+                req, req_mt = why, mode_specs.ProxyMode.parse(spec).transport_protocol
+    return req, req_mt
+
+
+def hist_actions_enabled(env_pending, last):
+    acts = ["set:" + k for k in HIST_MODE_SETS]
+    if env_pending:
+        acts.append("settle")
+    if last != "probe":
+        acts.append("probe")
+    return acts
+
+
+def gen_histories(depth):
+    """every action sequence up to `depth` over {set:<mode set>, settle, probe} that ends in a probe;
+    'settle' is only meaningful after a set, 'probe' is never repeated back to back"""
+    out = []
+
+    def rec(prefix, may_settle):
+        if prefix and prefix[-1] == "probe":
+            out.append(list(prefix))
+        if len(prefix) >= depth:
+            return
+        last = prefix[-1] if prefix else None
+        for a in hist_actions_enabled(may_settle, last):
+            rec(prefix + [a], True if a.startswith("set:") else (False if a == "settle" else may_settle))
+
+    rec([], False)
+    return out
+
+
+def run_history(case, t: Tally, verbose=False):
+    env = HistEnv()
+    try:
+        phase = "initial"
+        for i, act in enumerate(case["actions"]):
+            if act.startswith("set:"):
+                upd = HIST_MODE_SETS[act[4:]]
+                try:
+                    env.do(lambda: env.master.options.update(**upd))
+                except KeyboardInterrupt:
+                    raise
+                except BaseException as e:
+                    t.note("option update rejected: %s" % type(e).__name__)
+                phase = "during-restart" if env.pending else "after-reconfigure"
+            elif act == "settle":
+                env.settle()
+                phase = "after-reconfigure"
+            elif act == "probe":
+                last = i == len(case["actions"]) - 1
+                listeners = env.listeners()
+                for kind, host in HIST_PROBE_HOSTS:
+                    for port in HIST_PROBE_PORTS:
+                        for tr in ("tcp", "udp"):
+                            srv = connection.Server(address=(host, port), transport_protocol=tr)
+                            cl = connection.Client(peername=("192.0.2.10", 51000), sockname=("192.0.2.1", HIST_PORT0), timestamp_start=0)
+                            exc = None
+                            try:
+                                env.do(lambda: env.ps.server_connect(server_hooks.ServerConnectionHookData(server=srv, client=cl)))
+                            except KeyboardInterrupt:
+                                raise
+                            except BaseException as e:
+                                exc = repr(e)[:200]
+                            if not last and not verbose:
+                                continue  # earlier probes of this history are judged as the last probe of a shorter history
+                            req, req_mt = hist_reference(listeners, host, port, tr)
+                            feats = {"dest_kind": kind, "listener": "history", "mode_transport": req_mt or "-", "arrangement": "history", "phase": phase}
+                            obs = {"error": srv.error, "exception": exc, "open_listeners": listeners, "probe": [host, port, tr]}
+                            if exc:
+                                t.bad("guard_does_not_crash", feats, case, "no exception", obs)
+                            else:
+                                t.ok("guard_does_not_crash")
+                            if req:
+                                ok = bool(srv.error) and "destination unknown" in str(srv.error).lower()
+                                t.judge("self_connect_gets_error", ok, feats, case, "server.error = 'Request destination unknown...' (%s)" % req, obs)
+                                t.add("history_probe_required")
+                                if verbose and not ok:
+                                    print("  probe %s:%d/%s passes although %s; open listeners: %r" % (host, port, tr, req, listeners))
+                            else:
+                                t.add("history_probe_blocked" if srv.error else "history_probe_allowed")
+                            t.outcome(["history", phase, kind, port, tr, bool(req), bool(srv.error)])
+            else:
+                raise HarnessError("unknown history action %r" % act)
+            if verbose:
+                print("  after %-8s open=%r pending=%d" % (act, [(l[0], l[1][0][:2], l[2]) for l in env.listeners()], len(env.pending)))
+        t.case(case if len(case["actions"]) == 4 else None, nontrivial=any(a.startswith("set:") for a in case["actions"]), key=case)
+    finally:
+        env.dispose()
+
+
 def chunk_fn(chunk):
     t = Tally()
     for c in chunk:
-        run_case(c, t)
+        if c.get("via") == "history":
+            run_history(c, t)
+        else:
+            run_case(c, t)
     return t
 
 
@@ -379,7 +623,16 @@ def run(ctx):
         "arrangements": ["single", "second-server"] + (["first-server", "reversed-addrs"] if thorough else []),
         "guard_cases": len(cases), "full_core_cases": len(wcases),
     }
-    ctx.log("%d guard cases, %d full-core cases, %d destination spellings" % (len(cases), len(wcases), len(dests)))
+    hdepth = ctx.pick(4, 5)
+    hcases = [{"via": "history", "actions": a} for a in gen_histories(hdepth)]
+    ctx.bounds["histories"] = {
+        "count": len(hcases), "depth": hdepth, "actions": ["set:" + k for k in HIST_MODE_SETS] + ["settle (pending binds complete)", "probe"],
+        "mode_sets": HIST_MODE_SETS, "probe": "%d hosts x ports %r x tcp/udp server_connect calls, judged on the listeners open at that moment" % (
+            len(HIST_PROBE_HOSTS), HIST_PROBE_PORTS),
+    }
+    wcases = wcases + hcases
+    ctx.log("%d guard cases, %d full-core cases + %d reconfiguration histories, %d destination spellings" % (
+        len(cases), len(wcases) - len(hcases), len(hcases), len(dests)))
     # a guard case costs ~0.1 ms and a full-core case ~4 ms: one chunk per worker, a single pool
     # (the quick tier is ~3 s of CPU: forking a pool costs more than it saves, so it runs in-process)
     nproc = par.NPROC if len(cases) > 50000 else 1
@@ -393,7 +646,12 @@ def run(ctx):
     ctx.log("counters: %s" % dict(sorted(t.extra.items())))
     if not t.nontrivial:
         raise HarnessError("no case required the guard to fire")
+    if not t.extra.get("history_probe_required") or not t.extra.get("history_probe_allowed"):
+        raise HarnessError("vacuous history layer: %r" % t.extra)
 
 
 def replay(case, t: Tally, verbose=False):
-    run_case(case, t, verbose=verbose)
+    if isinstance(case, dict) and case.get("via") == "history":
+        run_history(case, t, verbose=verbose)
+    else:
+        run_case(case, t, verbose=verbose)
